@@ -69,3 +69,16 @@ Theorem C04_start_at_the_reference_count_refuted :
   In 3 (ref_labels_of a) /\
   new_label (full_map M (pred_labels_of a) (maxZ (ref_labels_of a))) 9 = 4.
 Proof. exact fresh_start_count_refuted. Qed.
+
+(* ---- how wide the relabelled prediction is: all its labels lie in [0, max(reference labels) + number of prediction labels]; the
+   bound is reached, so a type that holds the reference labels need not hold the relabelled prediction: casting it back to the
+   reference's 8-bit type is refuted on reference label 255 with one unmatched prediction (fresh label 256 -> 0: the instance vanishes) *)
+Theorem C04_new_labels_are_bounded : forall M a v, wf_matching M a -> nonneg_arr a -> In v a ->
+  0 <= new_label (lm_of M a) (snd v) <= maxZ (ref_labels_of a) + Z.of_nat (length (pred_labels_of a)).
+Proof. exact new_label_bound. Qed.
+
+Theorem C04_narrowing_to_the_reference_type_refuted :
+  let a : arr2 := [(255, 7); (0, 9)] in let M : lmap := [(7, 255)] in
+  map snd (map_instance_labels M a) = [255; 256] /\
+  map (fun x => x mod 2 ^ 8) (map snd (map_instance_labels M a)) = [255; 0].
+Proof. exact narrowing_cast_refuted. Qed.
